@@ -505,17 +505,129 @@ CLOCK_ATTRS = {'utcnow', 'now', 'today', 'time', 'time_ns', 'monotonic', 'perf_c
                'strftime', 'fromtimestamp'}
 READ_SITE_MAP = {
     ('jinja/__init__.py', '_generate_code', 'RClock'): 'RdNowUtc',
-    ('_namespace.py', '__init__', 'RResolve'): 'RdNsSourceFolder',
-    ('cli/runners.py', '_list_inputs_only', 'RResolve'): 'RdListResolve',
-    ('jinja/__init__.py', 'filter_type_to_include_path', 'RResolve'): 'RdIncludeResolve',
     ('jinja/environment.py', '_create_platform_version', 'RPlatform'): 'RdPlatform',
     ('cli/__init__.py', '_extra_includes_from_env', 'REnviron'): 'RdEnvIncludes',
 }
 
 
+# -- where does an absolute path go?  (sink tracking for resolve()/abspath()/... calls and `.source_file_path` loads) ----------
+LISTING_CALLS = ('self._stdout_lister', 'print', 'sys.stdout.write', 'sys.stderr.write')
+PATH_REDUCERS = {'name', 'stem', 'suffix', 'suffixes', 'exists', 'is_file', 'is_dir'}
+
+
+def _parents(tree: ast.AST) -> typing.Dict[int, ast.AST]:
+    par: typing.Dict[int, ast.AST] = {}
+    for n in ast.walk(tree):
+        for c in ast.iter_child_nodes(n):
+            par[id(c)] = n
+    return par
+
+
+def _is_sink_call(call: ast.Call) -> typing.Optional[str]:
+    src = ast.unparse(call.func)
+    if src in LISTING_CALLS:
+        return 'RdListing'
+    if re.match(r'^(logger|logging|self\._logger|_logger)\.(debug|info|warning|error|exception|critical|log)$', src):
+        return 'RdDiagnostic'
+    return None
+
+
+def classify_path_sink(trees: typing.Dict[str, ast.Module], pars: typing.Dict[str, typing.Dict[int, ast.AST]], rel: str,
+                       node: ast.AST, depth: int = 0) -> str:
+    """Follow the value of `node` (an expression that is an absolute path) upwards through the expression it is part of:
+         operand of a comparison                         -> RdCompareOnly (a boolean; equal for both of two relocated copies)
+         argument (also inside a lambda/comprehension) of the stdout lister / print       -> RdListing  (--list-inputs/outputs)
+         argument of a logger call, of `raise X(...)`                                      -> RdDiagnostic
+         `self._source_folder = ...` in Namespace.__init__                                 -> RdNsSourceFolder (template-visible
+                                                             only as Namespace.source_file_path; every other load is checked)
+         `return ...` under `if resolve:` in filter_type_to_include_path                   -> RdIncludeResolve (template sites)
+         `return ...` of a helper                        -> the sinks of EVERY call of that helper (one level, by method name)
+       anything else (assignment to a global, argument of another call, f-string, ...) -> RdUnknown."""
+    par = pars[rel]
+    cur = node
+    while True:
+        p = par.get(id(cur))
+        if p is None:
+            return 'RdUnknown'
+        if isinstance(p, ast.Attribute) and p.value is cur:
+            if p.attr in PATH_REDUCERS:
+                return 'RdReduced'          # .name / .exists(): no absolute component survives
+            cur = p                          # .as_posix, .parent ... still a path
+            continue
+        if isinstance(p, ast.Call):
+            if p.func is cur:                # method call on the path: x.as_posix()
+                cur = p
+                continue
+            sink = _is_sink_call(p)
+            if sink:
+                return sink
+            if isinstance(p.func, ast.Name) and p.func.id in ('str', 'sorted', 'list', 'set', 'tuple', 'iter'):
+                cur = p
+                continue
+            if isinstance(p.func, ast.Attribute) and isinstance(p.func.value, ast.Attribute) and ast.unparse(p.func.value) == 'pathlib' :
+                cur = p
+                continue
+            return 'RdUnknown'
+        if isinstance(p, ast.Compare):
+            return 'RdCompareOnly'
+        if isinstance(p, ast.Raise) or (isinstance(p, ast.Call) and False):
+            return 'RdDiagnostic'
+        if isinstance(p, (ast.Lambda, ast.Set, ast.SetComp, ast.ListComp, ast.GeneratorExp, ast.BinOp, ast.List, ast.Tuple, ast.comprehension,
+                          ast.keyword, ast.Starred, ast.IfExp, ast.BoolOp)):
+            cur = p
+            continue
+        if isinstance(p, ast.Assign) and len(p.targets) == 1 and ast.unparse(p.targets[0]) == 'self._source_folder' and rel == '_namespace.py':
+            return 'RdNsSourceFolder' if _source_folder_loads_ok(trees) else 'RdUnknown'
+        if isinstance(p, ast.Return):
+            fn = p
+            while fn is not None and not isinstance(fn, (ast.FunctionDef, ast.Lambda)):
+                fn = par.get(id(fn))
+            if isinstance(fn, ast.Lambda):
+                cur = fn
+                continue
+            if fn is None or depth >= 1:
+                return 'RdUnknown'
+            if fn.name == 'filter_type_to_include_path':
+                guarded = any(isinstance(i, ast.If) and isinstance(i.test, ast.Name) and i.test.id == 'resolve'
+                              and any(p is x for b in i.body for x in ast.walk(b)) for i in ast.walk(fn))
+                return 'RdIncludeResolve' if guarded else 'RdUnknown'
+            sinks = set()
+            for rel2, tree2 in trees.items():
+                for c in ast.walk(tree2):
+                    if isinstance(c, ast.Call) and isinstance(c.func, ast.Attribute) and c.func.attr == fn.name:
+                        sinks.add(classify_path_sink(trees, pars, rel2, c, depth + 1))
+            if sinks and sinks <= {'RdListing', 'RdDiagnostic', 'RdCompareOnly', 'RdReduced'}:
+                return sorted(sinks)[0] if len(sinks) == 1 else 'RdListing'
+            return 'RdUnknown'
+        return 'RdUnknown'
+
+
+def _source_folder_loads_ok(trees: typing.Dict[str, ast.Module]) -> bool:
+    """every load of `._source_folder` is `.exists()`, an argument of a raised exception, or the return value of the
+    `source_file_path` property (which templates see: the template site table covers it)"""
+    for rel, tree in trees.items():
+        par = _parents(tree)
+        for n in ast.walk(tree):
+            if isinstance(n, ast.Attribute) and n.attr == '_source_folder' and isinstance(n.ctx, ast.Load):
+                p = par.get(id(n))
+                if isinstance(p, ast.Attribute) and p.attr in PATH_REDUCERS:
+                    continue
+                if isinstance(p, ast.Call) and isinstance(par.get(id(p)), ast.Raise):
+                    continue
+                if isinstance(p, ast.Return):
+                    fn = p
+                    while fn is not None and not isinstance(fn, ast.FunctionDef):
+                        fn = par.get(id(fn))
+                    if fn is not None and fn.name == 'source_file_path':
+                        continue
+                return False
+    return True
+
+
 def ambient_reads(trees: typing.Dict[str, ast.Module]) -> typing.Tuple[typing.List[typing.Tuple[str, str, str]], bool]:
     out = []
     clock_ok = True
+    pars = {rel: _parents(tree) for rel, tree in trees.items()}
     for rel, tree in trees.items():
         funcs = [n for n in ast.walk(tree) if isinstance(n, (ast.FunctionDef, ast.AsyncFunctionDef, ast.Lambda))]
         owner: typing.Dict[int, str] = {}
@@ -547,12 +659,19 @@ def ambient_reads(trees: typing.Dict[str, ast.Module]) -> typing.Tuple[typing.Li
                     kind = 'RRandom'       # object identity = address
                 elif isinstance(f, ast.Name) and f.id == 'hash' and owner.get(id(node)) != '__hash__':
                     kind = 'RRandom'       # str hashes are seeded
+            elif isinstance(node, ast.Attribute) and node.attr == 'source_file_path' and isinstance(node.ctx, ast.Load):
+                kind = 'RAbsPath'      # pydsdl / Namespace: an absolute path
             elif isinstance(node, ast.Attribute) and ast.unparse(node) in ('os.environ', 'sys._xoptions', 'sys.argv'):
                 kind = 'REnviron' if node.attr == 'environ' else ('RPlatform' if node.attr == '_xoptions' else None)
             if kind is None:
                 continue
             fn_name = owner.get(id(node), '<module>')
-            site = READ_SITE_MAP.get((rel, fn_name, kind), 'RdUnknown')
+            if kind in ('RResolve', 'RAbsPath'):
+                site = classify_path_sink(trees, pars, rel, node)
+                if site == 'RdReduced':
+                    continue
+            else:
+                site = READ_SITE_MAP.get((rel, fn_name, kind), 'RdUnknown')
             out.append((kind, site, '%s %s line %d' % (rel, fn_name, node.lineno)))
             if kind == 'RClock' and site != 'RdNowUtc':
                 clock_ok = False
